@@ -324,6 +324,10 @@ def run_unit(ctx, u):
             wide = torch.stack([torch.stack([x, x.flip(0)], dim=-1).reshape(-1) for x in pool[0:3]])  # (3, 2n)
             lays["(B,n),strided view"] = (wide[:, ::2], torch.stack(refs[0:3]))
             lays["(B,n),expanded"] = (pool[0].unsqueeze(0).expand(3, -1), torch.stack([refs[0]] * 3))
+            x3, e3 = lays["(B1,B2,n)"]
+            lays["(B1,B2,n),permuted view"] = (x3.permute(1, 0, 2).contiguous().permute(1, 0, 2), e3)
+            xb, eb = lays["(B,b*n)"]
+            lays["(B,b*n),transposed view"] = (xb.t().contiguous().t(), eb)
             for lname, (X, exp) in lays.items():
                 ctx.case(name, label, "layout", lname)
                 try:
